@@ -43,13 +43,20 @@ func (cs crashsim) Gen(prop, tier string, ts *sim.Tapes) *Case {
 	}
 	p.Guards = ActiveGuards()
 	t := ts.Get("swarm")
-	switch t.Pick(3, 1, 1, 1) {
+	switch t.Pick(3, 1, 1, 1, 1) {
 	case 1:
 		p.BucketHeavy = true
 	case 2:
 		p.NoBigValues = true
 	case 3:
 		p.Overwrite = true
+	case 4:
+		// a free list longer than one page for the whole history
+		p.FreelistHeavy = true
+		cfg.PageSize = []int{1024, 2048}[t.Pick(3, 1)]
+		if cfg.AllocSize != 0 && cfg.AllocSize < cfg.PageSize {
+			cfg.AllocSize = cfg.PageSize
+		}
 	}
 	prog := work.GenProgram(ts, cfg, p)
 	c := &Case{Prop: prop, Engine: cs.Name(), Tier: tier, Seed: ts.Seed, Run: ts.Run, Prog: prog, Tapes: map[string][]uint64{}, Params: map[string]int{}}
